@@ -213,6 +213,8 @@ class Validator:
         See https://github.com/Julian/jsonschema/issues/119
         """
 
+        item_index = 0
+
         if not path:
             # error applies to the root type
             d = rootdict
@@ -220,6 +222,7 @@ class Validator:
         elif isinstance(path[-1], int) and not isinstance(error.instance, dict):
             # the error is on an item of a list-valued keyword e.g. SIZE 10.5 20
             while isinstance(path[-1], int):
+                item_index = path[-1]
                 path = path[:-1]
             key = path[-1]
             d = dictutils.findkey(rootdict, *path[:-1])
@@ -257,6 +260,9 @@ class Validator:
                 pd = d["__position__"]
             else:
                 pd = d["__position__"][key]
+                if isinstance(pd, list):
+                    # repeated keywords e.g. PROCESSING store a position for each occurrence
+                    pd = pd[item_index] if 0 <= item_index < len(pd) else pd[0]
 
             error_dict["line"] = pd.get("line")
             error_dict["column"] = pd.get("column")
